@@ -8,6 +8,9 @@ import sp
 
 ASSUME = [
     "TLC decides every recorded vector with SocksPort.Holds18a / Holds18b; the configurations are enumerated by the Python driver",
+    "through TorConfig.create_socks_endpoint the requested value is also a configured line in full, a loopback host:port listener's bare "
+    "port, an absent port with option words, and every such request is also made twice in a row; the internal helper "
+    "_create_socks_endpoint (which the library itself only calls without a requested value) is driven with first-word requests only",
     "existing configurations: unset with the built-in default in force, 1-3 explicit lines in TCP / host:port / unix forms with and "
     "without option words, 'SOCKSPort 0'; requested: none, a configured value, an unconfigured value; through "
     "Tor._default_socks_endpoint / _create_socks_endpoint (also on a Tor object with an attached TorConfig through which a refused "
@@ -57,6 +60,19 @@ def run(pid, tier, seed):
                 recs.append(sp.choose(ex, rq, "tor_cfg"))
             if rq is not None and ex["lines"]:
                 recs.append(sp.choose(ex, rq, "config"))
+                recs.append(sp.choose(ex, rq, "config", twice=True))
+        if ex["lines"] and firsts[0] in usable:
+            # TorConfig.socks_endpoint (synchronous, configured ports only): the first port, or one named by its first word
+            for rq in [None] + usable[:3]:
+                recs.append(sp.choose(ex, rq, "cfgsync"))
+        if ex["lines"]:
+            # through TorConfig: a configured line requested in full (options included), a configured host:port listener on
+            # the loopback address requested by its bare port, an absent port requested with option words (twice)
+            full = [l for l in ex["lines"] if " " in l and l.split()[0] in usable]
+            bare = [l.split(":")[1] for l in ex["lines"] if l.startswith("127.0.0.1:") and " " not in l]
+            for rq in full[:2] + bare[:1] + ["9999 IsolateDestAddr", "unix:/tmp/new2.sock WorldWritable"]:
+                recs.append(sp.choose(ex, rq, "config"))
+                recs.append(sp.choose(ex, rq, "config", twice=True))
     for rq in (None, "9999", "9050"):
         recs.append(sp.choose(dict(lines=[], default="9050", lookupfails=True), rq, "tor"))
     for outs in itertools.product(["ok", "connerr", "other", "socksfail", "hangup"], repeat=2):
